@@ -56,7 +56,12 @@ MODS = ("dagger", "dagger()", "control", "control2", "power", "powerk")
 
 #: argument kinds
 Q_IMPLVISIBLE = ("q", "qsub", "qarr", "sfq")  # qubit-containing, not hidden in a struct
-Q_KINDS = Q_IMPLVISIBLE + ("struct",)  # qubit-containing per the statement
+#: structs whose qubits sit below a field: in an array field, in a nested struct, in a tuple field
+DEEP_STRUCTS = {"sarr": ("QR", "    qs: array[qubit, 2]\n    size: int\n"),
+                "snest": ("QN", "    inner: QS\n    n: int\n"),
+                "stup": ("QT", "    p: tuple[int, qubit]\n")}
+STRUCT_KINDS = ("struct",) + tuple(DEEP_STRUCTS)
+Q_KINDS = Q_IMPLVISIBLE + STRUCT_KINDS  # qubit-containing per the statement
 C_KINDS = ("lit", "n", "csub", "sfn", "call")
 SUB_KINDS = ("qsub", "csub")
 
@@ -207,6 +212,7 @@ class Render:
         self.nc = 0
         self.std = set()
         self.need_struct = False
+        self.deep = set()
         self.need_callable = False
         self.defs = []  # (name, flags) of defined callees
 
@@ -236,6 +242,13 @@ class Render:
             self.need_struct = True
             self.param(name, "QS")
             return name, "QS"
+        if k in DEEP_STRUCTS:
+            name = f"d{k[1]}{alloc['struct']}"
+            alloc["struct"] += 1
+            self.need_struct = True
+            self.deep.add(k)
+            self.param(name, DEEP_STRUCTS[k][0])
+            return name, DEEP_STRUCTS[k][0]
         if k == "sfq":
             name = f"sq{alloc['sfq']}"
             alloc["sfq"] += 1
@@ -409,7 +422,7 @@ class Render:
 
         def prio(name):
             head = name.rstrip("0123456789")
-            head = {"sq": "s", "sn": "s", "rs": "rs"}.get(head, head)
+            head = {"sq": "s", "sn": "s", "rs": "rs", "da": "s", "dn": "s", "dt": "s"}.get(head, head)
             num = name[len(name.rstrip("0123456789")):]
             return (self.PRIO.index(head), name.rstrip("0123456789"), int(num or 0))
 
@@ -427,6 +440,8 @@ class Render:
         if "barrier" in self.std:
             imports += "from guppylang.std.builtins import barrier\n"
         struct = "@guppy.struct\nclass QS:\n    q: qubit\n    n: int\n\n" if self.need_struct else ""
+        for k in sorted(self.deep):
+            struct += f"@guppy.struct\nclass {DEEP_STRUCTS[k][0]}:\n{DEEP_STRUCTS[k][1]}\n"
         return (runner.PRELUDE + imports + "\n" + struct + "\n".join(self.header)
                 + f"\n{dec}\ndef main({ps}) -> {rty}:\n" + "\n".join(lines) + "\n")
 
@@ -587,7 +602,7 @@ def describe(case, reasons):
         seen.add("args:" + mix)
         seen.add("callee:" + ce["f"]["k"])
         for k in kinds:
-            if k in ("qsub", "csub", "struct", "qarr", "sfq"):
+            if k in ("qsub", "csub", "qarr", "sfq") + STRUCT_KINDS:
                 seen.add("arg:" + k)
     for s in itertools.chain(case.get("pre", []), case["body"]):
         stack = [s]
@@ -646,6 +661,9 @@ def enum_cases():
         ("qc", lambda f: _c(f, _a("q"), _a("lit"))),
         ("arr", lambda f: _c(f, _a("qarr"))),
         ("struct", lambda f: _c(f, _a("struct"))),
+        ("sarr", lambda f: _c(f, _a("sarr"))),
+        ("snest", lambda f: _c(f, _a("snest"))),
+        ("stup", lambda f: _c(f, _a("lit"), _a("stup"))),
         ("sfq", lambda f: _c(f, _a("sfq"))),
     ]
     positions = ["expr", "if", "ifand", "while", "return", "assign", "annassign", "augassign", "binop",
@@ -700,7 +718,7 @@ def enum_cases():
                        ({"k": "std", "name": "reset"}, "none"), ({"k": "std", "name": "project_z"}, "bool"),
                        ({"k": "barrier"}, "none"), ({"k": "state_result"}, "none")):
             for ak in ("q", "qsub", "sfq") + (("qarr",) if f["k"] in ("barrier", "state_result", "local") else ()) \
-                    + (("n", "struct") if f["k"] == "local" else ()):
+                    + (("n", "struct", "sarr", "snest") if f["k"] == "local" else ()):
                 for pos in (["expr", "ifbody", "pre"] if ret == "none" else
                             ["if", "while", "ifand"] if ret == "bool" else ["expr", "if", "return", "assign"]):
                     c = place(ctx, _c(f, _a(ak)), pos)
@@ -782,7 +800,7 @@ def strategies():
         n = draw(st.integers(1, 3))
         args = []
         for _ in range(n):
-            opts = ["q"] * 4 + ["lit"] * 2 + ["n", "csub", "sfn", "qarr", "struct", "sfq"]
+            opts = ["q"] * 4 + ["lit"] * 2 + ["n", "csub", "sfn", "qarr", "struct", "sfq", "sarr", "snest", "stup"]
             if budget["qsub"] > 0:
                 opts += ["qsub"]
             if depth < 2 and budget["calls"] > 0:
